@@ -3,11 +3,30 @@ use crate::common::constants::CoroutineState;
 use crate::coroutine::listener::Listener;
 use crate::coroutine::local::CoroutineLocal;
 use crate::scheduler::SchedulableCoroutineState;
-use std::sync::atomic::Ordering;
+use std::sync::atomic::{AtomicUsize, Ordering};
+use std::sync::Arc;
 
 #[repr(C)]
 #[derive(Debug, Default)]
-pub(crate) struct CoroutineCreator {}
+pub(crate) struct CoroutineCreator {
+    // the running size of the pool this listener belongs to: a coroutine keeps the listeners
+    // of the pool that created it, whichever pool's scheduler ends up running it
+    running: Arc<AtomicUsize>,
+}
+
+impl CoroutineCreator {
+    pub(crate) fn new(running: Arc<AtomicUsize>) -> Self {
+        CoroutineCreator { running }
+    }
+
+    fn worker_gone(&self) {
+        _ = self
+            .running
+            .fetch_update(Ordering::AcqRel, Ordering::Acquire, |n| {
+                Some(n.saturating_sub(1))
+            });
+    }
+}
 
 impl Listener<(), Option<usize>> for CoroutineCreator {
     fn on_state_changed(
@@ -23,17 +42,13 @@ impl Listener<(), Option<usize>> for CoroutineCreator {
                 }
             }
             CoroutineState::Complete(_) => {
-                if let Some(pool) = CoroutinePool::current() {
-                    //worker协程正常退出
-                    pool.running
-                        .store(pool.get_running_size().saturating_sub(1), Ordering::Release);
-                }
+                //worker协程正常退出
+                self.worker_gone();
             }
             CoroutineState::Cancelled | CoroutineState::Error(_) => {
+                //worker协程异常退出，需要先回收再创建
+                self.worker_gone();
                 if let Some(pool) = CoroutinePool::current() {
-                    //worker协程异常退出，需要先回收再创建
-                    pool.running
-                        .store(pool.get_running_size().saturating_sub(1), Ordering::Release);
                     _ = pool.try_grow();
                 }
             }
